@@ -211,8 +211,9 @@ class PipelineSim(WorldBase):
                     pb[order[-1]] = g.choice([32, 32, 64])
                     if 64 in pb.values() and line_elems % 2:
                         line_elems += 1
-                spec = self._gen_trace(g, name, order, tr, shape, fmt, with_write=(kind == "buffet" and g.random() < 0.4)
-                                       or (kind == "cache" and g.random() < 0.15), epl=line_elems, upper=upper)
+                spec = self._gen_trace(g, name, order, tr, shape, fmt, with_write=(kind == "buffet" and g.random() < 0.5)
+                                       or (kind == "cache" and g.random() < (0.5 if ntens == 2 else 0.15)),
+                                       epl=line_elems if kind == "cache" else 1, upper=upper)
                 spec["pbits"] = pb
                 evs.append(["trace", spec])
                 tens.append(spec)
@@ -281,6 +282,7 @@ class PipelineSim(WorldBase):
             return fibers[key]
 
         dens = density if density is not None else g.choice([0.4, 0.7, 1.0])
+        stage_p = g.choice([0.1, 0.25, 0.5])
         outer = order[:-1]
 
         def rec(d, stamp, coords):
@@ -294,10 +296,11 @@ class PipelineSim(WorldBase):
                     row = list(stamp) + [kp] + list(coords) + [c] + [pos]
                     rows.append(row)
                     if with_write and g.random() < 0.6:
-                        if g.random() < 0.25:
-                            # staging area: beyond the shape, starting on a line boundary of the line
-                            # size used (the models assume an element lives on exactly one line and
-                            # lines do not mix fiber and staging positions)
+                        if g.random() < stage_p:
+                            # staging area: beyond the shape. For the cache model it starts on a line boundary
+                            # (that model keeps pinned staging lines and ordinary lines in different structures
+                            # and asserts when one line is both); the buffet takes it right at the shape, so a
+                            # line can hold a real and a staging position, as real traces do
                             wpos = ((S + epl - 1) // epl) * epl + staging
                             staging += 1
                         else:
@@ -636,6 +639,19 @@ class PipelineSim(WorldBase):
                 if a.get("cap_frac"):
                     self.probe("cache_fractional_capacity")
             # bounds that hold in every configuration
+            if W is not None:
+                got_w = traffic.get(name, {}).get("write", 0)
+                real = [(tuple(c for c, m in zip(r[nr:2 * nr - 1], mask[:-1]) if m), r[2 * nr] // epl)
+                        for r in W if r[2 * nr] < shape_last]
+                lo, hi = len(set(real)) * line, len(real) * line
+                if not (lo <= got_w <= hi):
+                    self.V("C17", "C17.cache-write-bounds", fn,
+                           f"tensor {name}: {got_w} bits written back; every line that received a real write is written "
+                           f"back at least once and at most once per write: [{lo}, {hi}]")
+                self.probe("cache_with_writes")
+            else:
+                if traffic.get(name, {}).get("write", 0):
+                    self.V("C17", "C17.cache-write-bounds", fn, f"tensor {name} has no write trace but is charged write-backs")
             if W is None:
                 if not (len(lines) * line <= got_r <= nacc * line) and nacc:
                     self.V("C17", "C17.cache-bounds", fn,
